@@ -357,7 +357,7 @@ def load_supplemental_sources(config, config_dir):
     """
     import csv
     from datetime import datetime
-    from .parsers import parse_amount
+    from .parsers import parse_amount, _iter_rows_with_delimiter
 
     data_sources = {}
 
@@ -384,71 +384,60 @@ def load_supplemental_sources(config, config_dir):
         # Parse the CSV file into row dicts
         rows = []
         try:
-            with open(filepath, 'r', encoding='utf-8-sig', errors='replace') as f:
-                # Handle delimiter: None means comma (default)
-                delimiter = format_spec.delimiter
-                if delimiter == 'tab':
-                    delimiter = '\t'
-                elif delimiter == 'whitespace' or delimiter is None:
-                    delimiter = ','
+            # Rows are read like those of a transaction source (same delimiters - comma,
+            # 'tab', a single character, 'regex:...' - and the same header handling)
+            reader = _iter_rows_with_delimiter(filepath, format_spec.delimiter, format_spec.has_header)
+            # Build column map from format_spec
+            # custom_captures: {'symbol': 1, 'action': 2, ...}
+            column_map = {}
+            if format_spec.custom_captures:
+                for name, col_idx in format_spec.custom_captures.items():
+                    column_map[name.lower()] = col_idx
+            # With {description} in the format the named columns are extra_fields
+            if format_spec.extra_fields:
+                for name, col_idx in format_spec.extra_fields.items():
+                    column_map[name.lower()] = col_idx
 
-                reader = csv.reader(f, delimiter=delimiter)
+            # Add standard columns
+            column_map['date'] = format_spec.date_column
+            column_map['amount'] = format_spec.amount_column
+            if format_spec.description_column is not None:
+                column_map['description'] = format_spec.description_column
+            if format_spec.location_column is not None:
+                column_map['location'] = format_spec.location_column
 
-                # Skip header if specified
-                if format_spec.has_header:
-                    next(reader, None)
+            for line in reader:
+                if not line or all(not cell.strip() for cell in line):
+                    continue
 
-                # Build column map from format_spec
-                # custom_captures: {'symbol': 1, 'action': 2, ...}
-                column_map = {}
-                if format_spec.custom_captures:
-                    for name, col_idx in format_spec.custom_captures.items():
-                        column_map[name.lower()] = col_idx
-                # With {description} in the format the named columns are extra_fields
-                if format_spec.extra_fields:
-                    for name, col_idx in format_spec.extra_fields.items():
-                        column_map[name.lower()] = col_idx
-
-                # Add standard columns
-                column_map['date'] = format_spec.date_column
-                column_map['amount'] = format_spec.amount_column
-                if format_spec.description_column is not None:
-                    column_map['description'] = format_spec.description_column
-                if format_spec.location_column is not None:
-                    column_map['location'] = format_spec.location_column
-
-                for line in reader:
-                    if not line or all(not cell.strip() for cell in line):
+                # Parse row according to column map
+                row = {}
+                for field_name, col_idx in column_map.items():
+                    if col_idx >= len(line):
                         continue
 
-                    # Parse row according to column map
-                    row = {}
-                    for field_name, col_idx in column_map.items():
-                        if col_idx >= len(line):
-                            continue
+                    value = line[col_idx].strip()
 
-                        value = line[col_idx].strip()
-
-                        # Type conversion
-                        if field_name == 'date':
-                            try:
-                                row[field_name] = datetime.strptime(value, format_spec.date_format).date()
-                            except ValueError:
-                                row[field_name] = value
-                        elif field_name in ('amount', 'item_amount', 'price', 'total', 'proceeds', 'costbasis', 'gainloss', 'grosspay', 'federal', 'state', 'socialsec', 'medicare', '401k', 'hsa', 'netpay', 'shares'):
-                            try:
-                                # Read like the amounts of a transaction source: decimal
-                                # separator, thousands separators ("1.234,56"), currency
-                                # symbols, parentheses
-                                decimal_sep = source.get('decimal_separator', '.')
-                                row[field_name] = parse_amount(value, decimal_sep) if value else 0.0
-                            except ValueError:
-                                row[field_name] = 0.0
-                        else:
+                    # Type conversion
+                    if field_name == 'date':
+                        try:
+                            row[field_name] = datetime.strptime(value, format_spec.date_format).date()
+                        except ValueError:
                             row[field_name] = value
+                    elif field_name in ('amount', 'item_amount', 'price', 'total', 'proceeds', 'costbasis', 'gainloss', 'grosspay', 'federal', 'state', 'socialsec', 'medicare', '401k', 'hsa', 'netpay', 'shares'):
+                        try:
+                            # Read like the amounts of a transaction source: decimal
+                            # separator, thousands separators ("1.234,56"), currency
+                            # symbols, parentheses
+                            decimal_sep = source.get('decimal_separator', '.')
+                            row[field_name] = parse_amount(value, decimal_sep) if value else 0.0
+                        except ValueError:
+                            row[field_name] = 0.0
+                    else:
+                        row[field_name] = value
 
-                    if row:
-                        rows.append(row)
+                if row:
+                    rows.append(row)
 
         except Exception:
             # Skip sources that can't be loaded
